@@ -45,11 +45,15 @@ def run(chk):
     cases = []          # (tname, type, dn, qname, payload)
     for tname, t in TYPES:
         for dn in CODECS:
-            for ni, qname in enumerate((SHORT_NAME, LONG_NAME)):
-                styles = (0, 1, 2, 3) if thorough else ((0, 1) if ni == 0 else (3,))
-                for style in styles:
-                    for n in lengths(rng, thorough and ni == 0, style):
-                        cases.append((tname, t, dn, qname, contents(rng, n, style)))
+            if thorough:
+                for ni, qname in enumerate((SHORT_NAME, LONG_NAME)):
+                    for style in (0, 1, 2, 3):
+                        for n in lengths(rng, ni == 0, style):
+                            cases.append((tname, t, dn, qname, contents(rng, n, style)))
+            else:
+                # every length once per (type, codec); content style and question name vary with the length
+                for n in range(2, 4097):
+                    cases.append((tname, t, dn, LONG_NAME if n % 7 == 0 else SHORT_NAME, contents(rng, n, n % 4)))
     wd = ["wd %d %d %s %s %s" % (1 + i % 65535, t, dn, vlib.hx(qname), vlib.hx(p)) for i, (_, t, dn, qname, p) in enumerate(cases)]
     rs = vlib.run_parallel(srv, wd)
     bad = 0
